@@ -49,6 +49,14 @@ func (valdec ptrDecoder) Decode(dec *Decoder, p interface{}, tag byte) {
 			dec.convertReference(o, valdec.et.PackEFace(*ptr))
 		}
 	default:
+		if valdec.et.Kind() == reflect.Ptr {
+			// a pointer to a pointer consumes no input: a type made of nothing but pointers
+			// (type P *P) would be followed for ever. It is a level of nesting instead.
+			if !dec.enter() {
+				return
+			}
+			defer dec.leave()
+		}
 		if *ptr == nil {
 			*ptr = valdec.et.UnsafeNew()
 		}
@@ -74,8 +82,14 @@ func getPtrDecoder(t reflect.Type) ValueDecoder {
 
 func _getPtrDecoder(t reflect.Type, getElemDecoder func(t reflect.Type) ValueDecoder) ValueDecoder {
 	et := t.Elem()
-	elemDecoder := getElemDecoder(et)
-	registerValueDecoder(et, elemDecoder)
+	var elemDecoder ValueDecoder
+	if canRecurWithoutStruct(et) {
+		// a type that contains a pointer to itself (type L []*L): see getValueDecoder
+		elemDecoder = getValueDecoder(et)
+	} else {
+		elemDecoder = getElemDecoder(et)
+		registerValueDecoder(et, elemDecoder)
+	}
 	return ptrDecoder{
 		reflect2.Type2(t).(*reflect2.UnsafePtrType),
 		reflect2.Type2(et),
